@@ -36,8 +36,17 @@ class Mini:
                 v = self.ctx.folder.name(self.mod, node.id)
                 if isinstance(v, (int, str, bytes, float, bool)):
                     return v
-            except NotConst:
+            except (NotConst, AttributeError):
                 pass
+            # a module-level table (dict / list / tuple literal) is interpreted in its own module
+            try:
+                r = self.ctx.prog.resolve(self.mod, node.id)
+            except AttributeError:
+                r = None
+            if r is not None and r[0] == "assign" and isinstance(r[1], (ast.Dict, ast.List, ast.Tuple)) and getattr(self, "_depth", 0) < 3:
+                sub = Mini(self.ctx, r[2])
+                sub._depth = getattr(self, "_depth", 0) + 1
+                return sub.ev(r[1])
             return Sym(node.id)
         if isinstance(node, (ast.List, ast.Tuple)):
             vals = [self.ev(e) for e in node.elts]
